@@ -1,8 +1,8 @@
 package rules
 
 import (
-	"go/types"
 	"fmt"
+	"go/types"
 	"regexp"
 	"strconv"
 	"strings"
@@ -424,8 +424,8 @@ func c03Meta(c *core.Ctx) {
 
 func init() {
 	register(&Property{
-		ID:    "C03",
-		Level: "other",
+		ID:          "C03",
+		Level:       "other",
 		Explanation: "Decides the structural necessary conditions of 'a built certificate's new exit root follows from its bridge exits': C03-leaf-agree — the byte layout of agglayer/types.BridgeExit.Hash (what the Agglayer appends to its tree), composed with the field map of getBridgeExits and with convertBridgeMetadata / the empty-metadata substitution (emptyBytesHash = keccak of nothing), is the layout of bridgesync.Bridge.Hash (what the node appended, C01-leaf): same seven parts, widths and order; C03-order — both conversions are order-preserving maps (one append per element of a range over the input, no reordering call), and the inputs come from queryBlockRange whose statement (constant-folded, tokenised) bounds block_num by [$1=fromBlock, $2=toBlock] and orders by block_num, block_pos ascending; C03-newler — NewLocalExitRoot is the exit root recorded for MaxDepositCount (= DepositCount of the LAST bridge) or the previous LER when there are no bridges, and the certificate literal takes height / previous LER / exits / network from the matching sources; C03-meta — metadata arguments (FromBlock, uint32(ToBlock-FromBlock), CreatedAt, type) and writer/reader agreement of the metadata codec (slot table extracted from PutUintNN / UintNN calls, big-endian, disjoint). Not decided: that the stored root for that deposit count is the right one (C01) and the choice of range (C02/C17). Added after round 7: C03-fk (foreign keys on every pooled connection, shared with C04), C03-recover (range recovered from an Agglayer header, shared with C13).",
 		Rules: []Rule{
 			{ID: "C03-leaf-agree", Floor: 11, Run: c03LeafAgree, Text: "[LAYOUT]+[FIELDMAP] BridgeExit.Hash ∘ getBridgeExits ≡ Bridge.Hash"},
